@@ -147,6 +147,20 @@ def extract(ctx):
     g.strings('readChunkOrder', order_of(X.find(rr, '_request_new_chunk'), ['struct.pack(', 'self.cf.send_packet(']))
     g.strings('addDataOrder', order_of(X.find(rr, 'add_data'), ['self.data += data', 'self._bytes_left -= data_len',
                                                                 'self._current_addr += data_len', 'self._request_new_chunk()']))
+    # who owns the data of a write: the constructor keeps the caller's object or a copy; `_write_new_chunk` works on slices
+    ctor = X.find(wr, '__init__')
+    own = [ast.unparse(n.value) for n in ast.walk(ctor) if isinstance(n, ast.Assign) and ast.unparse(n.targets[0]) == 'self._data']
+    X.expect(len(own) == 1, '_WriteRequest.__init__: expected one assignment to self._data')
+    if own[0] == 'data':
+        copies = False
+    elif own[0] in ('data[:]', 'bytes(data)', 'bytearray(data)', 'list(data)', 'tuple(data)', 'data.copy()', 'copy.copy(data)'):
+        copies = True
+    else:
+        raise ExtractError('_WriteRequest.__init__: self._data = %s is neither the argument nor a recognised copy of it' % own[0])
+    g.raw('def writeCtorCopiesData : Bool := %s' % ('true' if copies else 'false'))
+    g.strings('writeDataUses', [ast.unparse(n) for n in ast.walk(wr)
+                                if isinstance(n, (ast.Assign, ast.AugAssign, ast.Compare)) and 'self._data' in ast.unparse(n)
+                                and not ast.unparse(n).startswith('self._data = data') and ast.unparse(n) != 'self._data = ' + own[0]])
     f = X.find(wr, 'write_done')
     g.strings('writeDoneCompares', X.compares(f))
     g.strings('writeDoneAugs', _augs(f))
@@ -530,8 +544,20 @@ class RealMem:
     def write(self, tag, id, addr, data, flush, prog):
         def cb(msg, pct):
             self.outs.append('P:%d:%d' % (tag, pct) + ('' if msg == 'Writing to memory' else '!msg=' + msg))
-        return self._do(lambda: self.mem.write(MemProxy(id, tag), addr, bytearray(data), flush_queue=bool(flush),
+        # the object handed to write() is the application's own mutable buffer: it may refill it afterwards (`refill`)
+        buf = bytearray(data)
+        if not hasattr(self, 'bufs'):
+            self.bufs = {}
+        self.bufs[tag] = buf
+        return self._do(lambda: self.mem.write(MemProxy(id, tag), addr, buf, flush_queue=bool(flush),
                                                progress_cb=cb if prog else None))
+
+    def refill(self, tag, data):
+        """the application overwrites, in place, the buffer it passed to write(tag ..) (same length)"""
+        buf = getattr(self, 'bufs', {}).get(tag)
+        if buf is not None and len(buf) == len(data):
+            buf[:] = data
+        return 'ok'
 
     def pkt(self, chan, data):
         pk = self.CRTPPacket()
@@ -561,6 +587,8 @@ class RealMem:
             return self.disc()
         if ws[0] == 'oneshot':
             return self.oneshot()
+        if ws[0] == 'refill':
+            return self.refill(int(ws[1]), b'' if ws[2] == '-' else bytes.fromhex(ws[2]))
         raise ValueError(ws)
 
     CALLERS = ['mem_read_cb', 'mem_read_failed_cb', 'mem_write_cb', 'mem_write_failed_cb']
@@ -1270,6 +1298,8 @@ REQUIRED_THEOREMS = ['CfVerif.C06.' + t for t in (
     'read_exact_every_schedule', 'start_outside_lock_counterexample', 'code_blocks_early_ack',
     'gen_caller_call', 'every_registered_subscriber_is_told_exactly_once', 'subscribers_are_told_what_is_due',
     'live_iteration_skips_the_next_subscriber',
+    'gen_write_data_ownership', 'refill_cannot_touch_started_requests', 'copying_constructor_ignores_refills',
+    'queued_write_aliases_caller_buffer_counterexample',
     'd9_lock_left_held', 'd9_wedged')]
 TRUSTED = ['harness/corr/c06.py extractor + correspondence (fake `cf` boundary object: add_port_callback, disconnected, send_packet with the '
            'size check of Crazyflie.send_packet; CheckedLock turns a blocking acquire of a held lock into `hang`; one MemProxy object per '
@@ -1303,6 +1333,9 @@ ASSUMPTIONS = ['A1 (freshness, data-exactness theorems only): no reply belonging
                'treated as happening after the call (the disconnect callback is modelled as one step that waits for the lock). A reply '
                'dispatched synchronously on the CALLING thread (re-entering the RLock) and two application threads racing in read() are '
                'outside the model',
+               'data ownership (round 7): the data of a write are the content of the buffer when write() is called; the application may '
+               'refill that buffer in place (same length) at any later point (AEv.refill); other mutations (resizing the buffer) and '
+               'mutation from another thread DURING write() are outside the model',
                'subscribers of the notification Callers (round 5): any behaviour that subscribes / unsubscribes anybody on any of the four '
                'Callers from inside a notification or between events, depending on everything told so far; an unsubscribe of somebody '
                'who is not subscribed is a guarded removal (a bare remove_callback would raise ValueError: covered by the next item)',
@@ -1324,6 +1357,7 @@ RULE = ('cases = whole histories driven adaptively on the REAL Memory object and
         "(one-shot self-removal at every position among permanent listeners, removing / adding others, scripts that change per invocation, "
         "(un)subscription between events, Callers replaced by a link loss): after every step, additionally, who was told what, in order; "
         "MemoryTester / DeckMemoryManager histories with self-removing application listeners registered ahead of the library's own. "
+        "Round 7: every write hands over a mutable bytearray that the history later refills in place (`refill`), at random points. "
         "distinct+non-trivial = distinct history (op lines)")
 
 READ_LENS = [0, 1, 19, 20, 21, 39, 40, 41, 59, 60, 61, 100]
@@ -1381,7 +1415,14 @@ class History:
 
     def write(self, id, addr, data, flush=False, prog=False):
         self.tag += 1
+        if not hasattr(self, 'wtags'):
+            self.wtags = []
+        self.wtags.append((self.tag, len(data)))
         return self.op(self.P + 'write %d %d %d %s %d %d' % (self.tag, id, addr, hexs(data), flush, prog))
+
+    def refill(self, tag, data):
+        """the application re-uses the buffer it passed to write(tag ..): overwritten in place with `data`"""
+        return self.op('refill %d %s' % (tag, hexs(data)))
 
     def pkt(self, chan, data):
         return self.op(self.P + 'pkt %d %s' % (chan, hexs(data)))
@@ -1443,6 +1484,10 @@ def rand_history(rng, steps, variant='code'):
             h.pkt(rng.choice([1, 2, 3]), src[:rng.randrange(0, min(len(src), 6) + 1)])
         elif x < 0.94:
             h.disc()
+        elif x < 0.97 and getattr(h, 'wtags', None):
+            # the caller re-uses the buffer of one of its (recent) writes
+            t, n = rng.choice(h.wtags[-4:])
+            h.refill(t, bytes(rng.randrange(256) for _ in range(n)))
         elif h.inflight:
             h.deliver(0)
     if rng.random() < 0.7:
@@ -2553,6 +2598,75 @@ def client_search(ctx):
     return False
 
 
+D65_KEY = 'D65-queued-write-sends-the-callers-later-buffer-content'
+ALIAS_KEY = 'write-aliasing'
+
+
+def aliasing_search(ctx):
+    """"the device memory equals the written data" = the data at the time of the call: the caller refills, in place, the
+    (mutable) buffer it passed to write() - right after write() returned, or after the k-th reply - and the device image
+    must still be the data of the call.  Writes that start at once (all boundary lengths) and writes queued behind
+    another one (known finding D65: a waiting request still refers to the caller's buffer)."""
+    rng = ctx.rng
+    found = False
+    for n in WRITE_LENS[1:]:
+        chunks = max(1, -(-n // 25))
+        for after in range(chunks):
+            sc = Scenario(ctx, rng, {'kind': 'write, then the caller refills its buffer', 'len': n, 'refill_after_reply': after})
+            h, dev = sc.h, sc.h.dev
+            base = bytes(dev.mems[2].data)
+            a = 11
+            d = bytes(rng.randrange(256) for _ in range(n))
+            t = sc.write(2, a, d)
+            for _ in range(after):
+                sc.deliver(0, keep=False)
+            h.refill(t, bytes(x ^ 0xFF for x in d))
+            g = 0
+            while h.inflight and g < 60:
+                sc.deliver(0, keep=False)
+                g += 1
+            ctx.count('search:aliasing')
+            img = bytearray(base)
+            img[a:a + n] = d
+            got = bytes(dev.mems[2].data)
+            if sc.notes.get(t, [''])[0][:2] == 'WO' and got != bytes(img):
+                diff = [j for j in range(len(img)) if got[j] != img[j]]
+                sc.fail(ALIAS_KEY, 'the caller re-used (refilled in place) the buffer it had passed to write() after write() had returned: '
+                        'the write is reported as successful but the device memory holds bytes of the NEW buffer content, not the '
+                        'data of the call', len=n, refill_after_reply=after, first_difference_at=diff[0] - a, bytes_differing=len(diff),
+                        device=hexs(got[diff[0]:diff[0] + 8]), data_of_the_call=hexs(bytes(img[diff[0]:diff[0] + 8])))
+                found = True
+            evaluate_simple(sc, {t: 'WO'})
+            if sc.bad:
+                return True
+    # queued behind another write
+    for n in (1, 26):
+        sc = Scenario(ctx, rng, {'kind': 'queued write, then the caller refills its buffer', 'len': n})
+        h, dev = sc.h, sc.h.dev
+        base = bytes(dev.mems[2].data)
+        d1 = bytes(rng.randrange(256) for _ in range(30))
+        d2 = bytes(rng.randrange(256) for _ in range(n))
+        t1 = sc.write(2, 5, d1)
+        t2 = sc.write(2, 60, d2)
+        h.refill(t2, bytes(x ^ 0xFF for x in d2))
+        g = 0
+        while h.inflight and g < 60:
+            sc.deliver(0, keep=False)
+            g += 1
+        ctx.count('search:aliasing')
+        img = bytearray(base)
+        img[5:35] = d1
+        img[60:60 + n] = d2
+        if bytes(dev.mems[2].data) != bytes(img) and not sc.bad:
+            ctx.witness(D65_KEY, 'a write queued behind another write of the same memory keeps a reference to the caller\'s buffer until it is '
+                        'started by the reply handler: refilled by the caller in the meantime, the device receives the new content',
+                        {'scenario': sc.desc, 'ops': h.lines[-12:]}, device=hexs(bytes(dev.mems[2].data[60:60 + min(n, 8)])),
+                        data_of_the_call=hexs(d2[:8]))
+        if sc.bad:
+            return True
+    return found
+
+
 SUBS_KEY = 'subscriber-exactly-one'
 
 
@@ -2618,6 +2732,8 @@ def search(ctx):
     if interleaving_search(ctx):
         return
     if subscriber_search(ctx):
+        return
+    if aliasing_search(ctx):
         return
     if systematic_search(ctx):
         return
